@@ -6,27 +6,12 @@
    `tuple(normalize_axis(a, ndim) for a in axis)` is transcribed by hand in Model/Reduce.v
    (`norm_axes`), which calls the generated integer branch once per element.  If either source
    text changes the extern key disappears and translation fails closed.
- * the `else` branch of `if reduce_super_ufunc is None:` in `SparseArray.reduce` — the fill
-   correction for add/multiply — read per output cell (`data`, `counts` are the cell's reduced
-   stored value and stored count).  `method(...)`, `reduce_super_ufunc(...)` are applications of
-   ufuncs identified by a small integer code; their meaning on Python ints is given inline (so the
-   generated file needs nothing beyond Lib/Py.v): codes 0 add, 1 multiply, 9 power.
-   The other pieces of `reduce` (head with the admissibility test, the masked `if` branch, the
-   `_reduce_super_ufunc` table, `COO._reduce_calc`'s per-axis expression) are extracted by
-   tools/sitegen/reduce.py, which needs statement ranges and one rewriting rule the fragment
-   grammar does not have."""
+ * everything of `SparseArray.reduce` / `COO._reduce_calc` (head with the admissibility test, the
+   three-way fill correction, the `_reduce_super_ufunc` table, the per-axis expression) is extracted
+   by tools/sitegen/reduce.py, which needs statement ranges and one rewriting rule (boolean-mask
+   assignment read per cell) that the fragment grammar does not have."""
 
 UT = "sparse/numba_backend/_utils.py"
-SA = "sparse/numba_backend/_sparse_array.py"
-
-# application of the ufunc with integer code `f` to two Python ints (only Lib/Py.v names)
-def _apply(f, a, b):
-    return (f"(match {f}, as_int {a}, as_int {b} with "
-            f"| VInt 0, Some a_, Some b_ => Ok (VInt (a_ + b_)) "
-            f"| VInt 1, Some a_, Some b_ => Ok (VInt (a_ * b_)) "
-            f"| VInt 9, Some a_, Some b_ => if b_ <? 0 then Raise ValueError else Ok (VInt (a_ ^ b_)) "
-            f"| _, _, _ => Raise TypeError end)")
-
 
 FILES = {
     "G_reduce.v": [
@@ -34,16 +19,6 @@ FILES = {
              extern={
                  "all((isinstance(a, Integral) for a in axis))": "Raise NotImplementedError",
                  "tuple((normalize_axis(a, ndim) for a in axis))": "Raise NotImplementedError",
-             }),
-        dict(name="g_reduce_super", file=SA, func="SparseArray.reduce", callable=False,
-             selector=("else", "reduce_super_ufunc is None"),
-             params=["method", "reduce_super_ufunc", "fill", "data", "counts", "n_cols"],
-             result=["data", "result_fill_value"],
-             extern={
-                 "method(data, reduce_super_ufunc(self.fill_value, n_cols - counts)).astype(data.dtype)":
-                     "(m_ <- py_sub n_cols counts ;; s_ <- " + _apply("reduce_super_ufunc", "fill", "m_") +
-                     " ;; " + _apply("method", "data", "s_") + ")",
-                 "reduce_super_ufunc(self.fill_value, n_cols)": _apply("reduce_super_ufunc", "fill", "n_cols"),
              }),
     ],
 }
